@@ -404,7 +404,7 @@ func writeReplay(o RunOpts, prop string, h *HarnessCfg, v *Violation) string {
 	os.MkdirAll(dir, 0o755)
 	name := fmt.Sprintf("%s-%s-%s.json", prop, h.Func, sanitize(v.Label))
 	p := filepath.Join(dir, name)
-	rf := replayFile{Property: prop, Pkg: h.Pkg, Harness: h.Func, Label: v.Label, Kind: v.Kind, Msg: v.Msg, Params: h.cur.Params, Tape: v.Tape, Expect: "violation"}
+	rf := replayFile{Property: prop, Pkg: h.Pkg, Harness: h.Func, Label: v.Label, Kind: v.Kind, Msg: v.Msg, Params: h.cur.Params, Tape: v.Tape, Expect: "violation", Case: v.Case}
 	b, _ := json.MarshalIndent(rf, "", " ")
 	os.WriteFile(p, b, 0o644)
 	return p
@@ -531,6 +531,7 @@ func replayWitnesses(o RunOpts, L *Loaded, prop string, h *HarnessCfg, jr *JobRe
 		Expect   string         `json:"expect"`
 		Tapes    []struct {
 			Label string      `json:"label"`
+			Case  int         `json:"case"`
 			Tape  []TapeEntry `json:"tape"`
 		} `json:"tapes"`
 	}
@@ -538,8 +539,9 @@ func replayWitnesses(o RunOpts, L *Loaded, prop string, h *HarnessCfg, jr *JobRe
 	for _, l := range labels {
 		m.Tapes = append(m.Tapes, struct {
 			Label string      `json:"label"`
+			Case  int         `json:"case"`
 			Tape  []TapeEntry `json:"tape"`
-		}{l, jr.Witness[l]})
+		}{l, jr.WitnessCase[l], jr.Witness[l]})
 	}
 	p := filepath.Join(dir, fmt.Sprintf("%s-%s-witness.json", prop, h.Func))
 	b, _ := json.MarshalIndent(m, "", " ")
